@@ -90,6 +90,11 @@ func checkC20() fw.Check {
 					reqs = append(reqs, c20Req{proto: "TCP", method: m, cap: cp, fault: "none", e2e: 2, queries: 1})
 				}
 			}
+			// an unset method (library callers, an explicitly empty tcp-method= parameter): which trace the path runs use is
+			// the default's business, but end-to-end probes use SYN whatever the method
+			for _, cp := range []string{"sack-ok", "sack-ok-ts", "no-sackperm"} {
+				reqs = append(reqs, c20Req{method: "", cap: cp, fault: "none", e2e: 2, queries: 1}, c20Req{method: "", cap: cp, fault: "none", e2e: 1, queries: 0})
+			}
 			var cases []fw.Case
 			// "cannot connect" by silence: the target drops the SYN of the SACK connection (an address behind the
 			// non-forwarding peer namespace). The dial is a real system call, so these two cases run on the real clock
